@@ -1,7 +1,176 @@
-import Driver.Util
-open Lean
+import Driver.TyJson
+import Heph.Model.Inst
+/-! ops of C08/C17: `inst.arg_variance` (candidate list of `_get_type_arg_variance`), `inst.arg_variance_p`,
+    `inst.has_bound_of`, `inst.available_types`, `inst.update_bound_rec`, `inst.effective_choices`, `inst.ok`.
+    Type-valued answers are compared inside the driver against the `expect` field (structural equality). -/
+open Lean Heph Heph.Inst
 namespace Driver.Inst
 
-def handle : Handler := fun _ _ => none
+/-- `"vc"`: `null` (variance_choices is None) or `[[keyIdx, canVariant, canContravariant], …]` -/
+def parseVChoices (tbl : Array Ty) (j : Json) (k : String) : Except String (Option VChoices) := do
+  let v := j.getObjValD k
+  if v.isNull then pure none else
+    let a ← v.getArr?
+    let l ← a.toList.mapM fun e => do
+      let p ← e.getArr?
+      if p.size != 3 then throw "variance choice must be [key, can_variant, can_contravariant]"
+      let i ← p[0]!.getNat?
+      match tbl[i]? with
+      | some t => pure (t, ((← p[1]!.getBool?), (← p[2]!.getBool?)))
+      | none => throw s!"type index {i} out of range"
+    pure (some l)
+
+def parseDis (j : Json) : Except String Dis := do
+  match ← getNatList j "dis" with
+  | [a, b] => pure ⟨a != 0, b != 0⟩
+  | _ => throw "dis must be 2 ints"
+
+def boolList (j : Json) (k : String) : Except String (List Bool) := do
+  (← getArr j k).toList.mapM fun x => x.getBool?
+
+def parseItem (tbl : Array Ty) (j : Json) : Except String Item := do
+  match ← getStr j "k" with
+  | "ty" => pure (.ty (← tyAt tbl j "t") (← tyOptAt tbl j "box"))
+  | "cls" => pure (.cls (← getNat j "ct") (← tyAt tbl j "t"))
+  | k => throw s!"unknown item kind {k}"
+
+/-- items are compared by kind and by the structure of their type (the `box` field of an
+    output item carries no information) -/
+def itemEq : Item → Item → Bool
+  | .ty t _, .ty t' _ => structEq t t'
+  | .cls ct t, .cls ct' t' => ct == ct' && structEq t t'
+  | _, _ => false
+
+def itemsEq : List Item → List Item → Bool
+  | [], [] => true
+  | x :: xs, y :: ys => itemEq x y && itemsEq xs ys
+  | _, _ => false
+
+def itemJson : Item → Json
+  | .ty t _ => Json.mkObj [("k", "ty"), ("t", Json.str (Ty.getName t))]
+  | .cls ct t => Json.mkObj [("k", "cls"), ("ct", Json.num (JsonNumber.fromNat ct)), ("t", Json.str (Ty.getName t))]
+
+def tmapEq : Ty.TMap → Ty.TMap → Bool
+  | [], [] => true
+  | (k, v) :: xs, (k', v') :: ys => structEq k k' && structEq v v' && tmapEq xs ys
+  | _, _ => false
+
+def tmapJson (m : Ty.TMap) : Json :=
+  Json.arr (m.toArray.map fun (k, v) => Json.arr #[Json.str (Ty.tparamStr k), Json.str (Ty.getName v)])
+
+def parseIdx (tbl : Array Ty) (j : Json) (k : String) : Except String (List (Ty × Nat)) := do
+  let a ← getArr j k
+  a.toList.mapM fun e => do
+    let p ← e.getArr?
+    if p.size != 2 then throw "pair expected"
+    match tbl[← p[0]!.getNat?]? with
+    | some t => pure (t, ← p[1]!.getNat?)
+    | none => throw "type index out of range"
+
+def trBoolJson : Ty.TR Bool → Json := trToJson Json.bool
+def trNatListJson : Ty.TR (List Nat) → Json := trToJson ofNatList
+
+def optStr (j : Json) (k : String) : Option String :=
+  match j.getObjVal? k with
+  | .ok v => (match v.getStr? with | .ok s => some s | .error _ => none)
+  | .error _ => none
+
+def parseInstIn (tbl : Array Ty) (j : Json) : Except String InstIn := do
+  pure { params := ← tyListAt tbl j "params", pre := ← parseTMap tbl j "pre", vc := ← parseVChoices tbl j "vc",
+         dis := ← parseDis j, top := ← tyAt tbl j "top" }
+
+/-- diagnostics for a rejected instantiation: per parameter which clause of `instOK1` fails -/
+def diagnose (I : InstIn) (σ : Ty.TMap) : List Ty → List Json
+  | [] => []
+  | p :: ps =>
+    let here : List Json :=
+      match σ.get p with
+      | none => [Json.mkObj [("param", Json.str (Ty.tparamStr p)), ("fails", Json.str "no-argument")]]
+      | some a =>
+        let req := requestedBy I p a
+        let noPrim := req || (!a.isPrim && !a.isTCon && !(argCore a).isPrim && !(argCore a).isTCon)
+        let bnd := req || (match Ty.boundOf p with | none => true | some b => withinD I.top a (Ty.substituteType b σ))
+        let kept := match I.pre.get p with
+          | none => true
+          | some t => overridable I p || Ty.beq a t ||
+              (match a with | .wild v (some x) => Ty.beq x t && !t.isWild && projAllowed I p ps v | _ => false)
+        let proj := match a with
+          | .wild v bd => exemptProjection I σ p a || (bd.isSome && projAllowed I p ps v)
+          | _ => true
+        let fails := (if noPrim then [] else ["primitive-or-bare-constructor"]) ++ (if bnd then [] else
+            [if (match Ty.boundOf p with | some b => b.isTVar && overridable I b | none => false)
+             then "outside-bound:bound-variable-overwritten-by-a-request" else "outside-bound"]) ++
+          (if kept then [] else ["requested-assignment-not-kept"]) ++ (if proj then [] else ["projection-not-permitted"])
+        if fails.isEmpty then [] else
+          [Json.mkObj [("param", Json.str (Ty.tparamStr p)), ("arg", Json.str (Ty.getName a)),
+            ("arg_variance", match a with | .wild v _ => Json.num (JsonNumber.fromNat v) | _ => Json.null),
+            ("bound", match Ty.boundOf p with | some b => Json.str (Ty.getName (Ty.substituteType b σ)) | none => Json.null),
+            ("candidates", trNatListJson (argVarianceP I.dis p I.vc ps)),
+            ("fails", ofStrList fails)]]
+    here ++ diagnose I σ ps
+
+def handle : Handler := fun op j =>
+  match op with
+  | "inst.arg_variance" => some (do
+      let tbl ← parseTable j
+      let tparam ← tyAt tbl j "tparam"
+      pure (res (ofNatList (argVariance (← parseDis j) tparam (← parseVChoices tbl j "vc") (← boolList j "later")))))
+  | "inst.arg_variance_p" => some (do
+      let tbl ← parseTable j
+      let tparam ← tyAt tbl j "tparam"
+      pure (res (trNatListJson (argVarianceP (← parseDis j) tparam (← parseVChoices tbl j "vc") (← tyListAt tbl j "others")))))
+  | "inst.has_bound_of" => some (do
+      let tbl ← parseTable j
+      pure (res (trBoolJson (hasBoundOf (← tyAt tbl j "self") (← tyAt tbl j "other")))))
+  | "inst.available_types" => some (do
+      let tbl ← parseTable j
+      let items ← (← getArr j "items").toList.mapM (parseItem tbl)
+      let expect ← (← getArr j "expect").toList.mapM (parseItem tbl)
+      let r := availableTypes (optStr j "con_name") items (← getBool j "only_regular") (← getBool j "primitives")
+      if itemsEq r expect then pure (res (Json.bool true))
+      else pure (res (Json.arr (r.toArray.map itemJson))))
+  | "inst.update_bound_rec" => some (do
+      let tbl ← parseTable j
+      let r := updateBoundRec (← tyAt tbl j "tparam") (← tyAt tbl j "t") (← tyListAt tbl j "targs")
+                 (← parseIdx tbl j "idx") (← parseTMap tbl j "m")
+      match r with
+      | .ok targs m =>
+          let etargs ← tyListAt tbl j "expect_targs"
+          let em ← parseTMap tbl j "expect_m"
+          if structEqL targs etargs && tmapEq m em then pure (res (Json.str "ok"))
+          else pure (res (Json.mkObj [("targs", ofStrList (targs.map Ty.getName)), ("m", tmapJson m)]))
+      | .assertionError => pure (res (Json.str "AssertionError"))
+      | .indexError => pure (res (Json.str "IndexError"))
+      | .subError e => pure (res (resToJson e)))
+  | "inst.effective_choices" => some (do
+      let tbl ← parseTable j
+      let params ← tyListAt tbl j "params"
+      let r := effectiveChoices (← getStr j "con_name") params (← parseVChoices tbl j "vc")
+                 (← getBool j "enable_pecs") (← getBool j "disable_variance_functions") (← getBool j "disable_variance")
+      match r with
+      | none => pure (res Json.null)
+      | some m => pure (res (Json.arr (m.toArray.map fun (k, (a, b)) =>
+          Json.arr #[Json.str (Ty.tparamStr k), Json.bool a, Json.bool b]))))
+  | "inst.ok" => some (do
+      let tbl ← parseTable j
+      let I ← parseInstIn tbl j
+      let σ ← parseTMap tbl j "sigma"
+      let v := j.getObjValD "targs"
+      let targs ← if v.isNull then pure none else do pure (some (← idxList tbl v))
+      if instOK I σ targs then pure (res (if preConsistent I then Json.bool true else Json.str "shape-only"))
+      else
+        let shape := match targs with
+          | none => []
+          | some as => if as.length == I.params.length && Ty.beqL as (I.params.filterMap σ.get) then []
+                       else [Json.mkObj [("fails", ofStrList ["argument-list-differs-from-map"])]]
+        pure (res (Json.arr (shape ++ (if preConsistent I then diagnose I σ I.params else
+          diagnose { I with pre := [] } σ I.params)).toArray)))
+  | "inst.pre_consistent" => some (do
+      let tbl ← parseTable j
+      pure (res (Json.bool (preConsistent (← parseInstIn tbl j)))))
+  | "inst.sub_d" => some (do
+      let tbl ← parseTable j
+      pure (res (Json.bool (Ty.isSubDTop (← tyAt tbl j "s") (← tyAt tbl j "t")))))
+  | _ => none
 
 end Driver.Inst
